@@ -55,6 +55,38 @@ def monitor(rep, case, impl, model, payload):
         rep.nontrivial(tuple(ops))
 
 
+def parser_block(rep, tier, seed):
+    """the parser alone on hostile bytes, all flag sets: events AND every counter (samples, tag errors, tags, errors by
+    reason) must be the model's - C02_parser_no_panic is a theorem about that model"""
+    import random
+    import line_engine as LE
+    rnd = random.Random(seed * 17 + 3)
+    n = 3000 if tier == "quick" else 120000
+    cases = [(rnd.randrange(16), GL.bound_rates(GL.hostile_line(rnd))) for _ in range(n)]
+    cases = [(fl, l) for fl, l in cases if b"\n" not in l]
+    impl, model = LE.run_cases("C02", cases, tag="hostile_lines")
+    rep.count(len(cases))
+    bad = 0
+    reasons = {}
+    for (fl, l), i, m in zip(cases, impl, model):
+        o = LE.parse_obs(i)
+        if o.get("panic"):
+            rep.violation("a line makes the parser panic", dict(flags=fl, line=repr(l), line_hex=vf.hexs(l), impl=i)); bad += 1
+        elif i != m:
+            bad += 1
+            if len(rep.violations) < 5:
+                rep.violation("implementation differs from the proved model (line engine, hostile bytes)",
+                              dict(flags=fl, line=repr(l), line_hex=vf.hexs(l), impl=i, model=m), no_input=True)
+        else:
+            for r_ in o["errs"]:
+                reasons[r_] = reasons.get(r_, 0) + 1
+        if len(rep.violations) >= 5:
+            break
+    rep.extra["hostile_lines_through_the_parser"] = len(cases)
+    rep.extra["hostile_line_error_reasons"] = reasons
+    rep.extra["hostile_line_disagreements"] = bad
+
+
 def run(rep, tier, seed, replay):
     extra = [(15, ("none", 0), [PE.I(b"amp:1|ms|@0.00001"), PE.I(b"ok1:1|c"), "G"], "amplification"),
              (15, ("none", 0), [PE.I(b"a]b[c:1|c"), PE.I(b"foo:1|ms|#quantile:x"), PE.I(b"#a=b:1|c"), PE.I(b"ok1:1|c"), "G"], None)]
@@ -62,3 +94,6 @@ def run(rep, tier, seed, replay):
            "%(n)d streams of 3-25 lines with 1-4 hostile lines (grammar-aware mutations, raw bytes, invalid UTF-8, reserved tag keys, extreme "
            "numerics and rates) in first/middle/last position under random accepted configs (reserved rule labels allowed) and all 16 flag sets, "
            "each followed by four known-good lines and a scrape; non-trivial = stream with non-ASCII bytes; distinct by op sequence", extra_cases=extra)
+    if not replay and len(rep.violations) < 5:
+        parser_block(rep, tier, seed)
+        rep.cov["rule"] += "; plus %d hostile lines through the parser alone under random flag sets, events and all parser counters compared with the model" % rep.extra.get("hostile_lines_through_the_parser", 0)
